@@ -50,6 +50,9 @@ void pbt_property(Ctx &c) {
         // (a leakage sample that depends on the zero handle being recognised whatever was looked up before)
         if (P >= 2) others.push_back(g.dbl(0, 1, rnd_disk(a, 0.3L, 1.0L), rnd_disk(a, 0.3L, 1.0L), true, 1));
         if (P >= 2) others.push_back(g.sparse_multiport(g.perm_ports(2 + (int)a.draw(P - 1))));
+        // rectangular calibrations: a reflect on a port OUTSIDE the square part of the measurement matrix.  It yields no
+        // equation at all, but for the leakage types it is an isolation measurement (possibly the only leakage sample)
+        if (P > d) { others.push_back(g.single(d + (int)a.draw(P - d), g.gen_refl((int)a.draw(3), theta[d]))); others.back().entry = Standard::SINGLE; }
         // cap at 8: thin out the reflects first (never below one per port), then the rest
         auto total = [&]() { size_t n = others.size(); for (auto &v : refl) n += v.size(); return n; };
         while (total() > 8) {
